@@ -3,7 +3,7 @@
 # quick checks, reverts /repo; prints exit codes and the VIOLATION lines (evidence restored afterwards)
 NAME=$1; shift
 cd /verif
-git -C /repo apply seeded/$NAME/patch.diff || { echo "patch does not apply"; exit 3; }
+git -C /repo apply /verif/seeded/$NAME/patch.diff || { echo "patch does not apply"; exit 3; }
 for c in "$@"; do
   /venv/bin/python harness/check.py $c --tier quick > /tmp/recheck_$c.out 2>&1; rc=$?
   echo "$NAME $c exit=$rc $(grep -E '^VIOLATION' /tmp/recheck_$c.out | head -1) $(grep -E '^violation tags' /tmp/recheck_$c.out | cut -c1-200)"
